@@ -2,11 +2,11 @@
    No proofs here.
 
    Transcribed:
-     pad_ragged_arrays_to_dense_array (57-73)        -> pad_ragged  (pad_means: 0, pad_vars: NaN = None)
-     dbal_fast_gauss_scoring_vectorized (164-256)    -> kernel (pure) / kernel_checked (with the ValueErrors)
+     pad_ragged_arrays_to_dense_array (57-75)        -> pad_ragged  (pad_means: 0, pad_vars: NaN = None); its dtype -> pad_dtype
+     dbal_fast_gauss_scoring_vectorized (166-258)    -> kernel (pure) / kernel_checked (with the ValueErrors)
      dbal_fast_gaussian_scoring_heteroscedastic      -> hetero / hetero_checked
      dbal_fast_gaussian_scoring_homoscedastic        -> homo / homo_checked
-     GaussianDBALScorer.score (259-337)              -> scorer / scorer_checked
+     GaussianDBALScorer.score (261-339)              -> scorer / scorer_checked
      scipy.special.logsumexp (installed 1.17.1)      -> logsumexp
      np.array_split                                  -> array_split
    and [direct]: the documented estimator as a plain double loop (triples, experiments) for ONE
@@ -22,7 +22,10 @@
    draw; [triples_of_draw] applies the modelled unranking of Model/Unrank.v to it);
    distance_factor [df] is assumed > 0 (so that df * -inf = -inf); floating-point rounding of
    + - * / (the model computes the real-number value); tqdm; dict insertion order is the list
-   order.  predict_mean_all / predict_variance_all are the identity on the prescribed rows
+   order.  Padding keeps every plate's values exactly (one element type for all arrays): true of
+   the code since the dense array is allocated with np.result_type over ALL the arrays and the pad
+   value ([pad_dtype], end of this file; before that repair the dense array took the dtype of the
+   FIRST plate and rounded the others: [pad_dtype_of true], kept only to be refuted).  predict_mean_all / predict_variance_all are the identity on the prescribed rows
    (exercised through the real functions by the harness).
    Error tags: 20 variances.shape != predictions.shape, 21 D not square, 22 D size != n_thetas,
    23 fewer than 3 thetas, 24 plate mean/variance shape mismatch, 25 homoscedastic n_plates
@@ -377,3 +380,31 @@ Fixpoint zip3_nat (a b c : list Z) : list triple :=
   end.
 Definition nat_triples (idx : list Z * list Z * list Z) : list triple :=
   zip3_nat (fst (fst idx)) (snd (fst idx)) (snd idx).
+
+(* ---- the dtype of the dense array pad_ragged_arrays_to_dense_array allocates (repair fx2) ----
+   Everything above takes array elements as exact values of one type A: storing a plate into the dense array keeps its
+   values.  numpy does that only if the dense array's dtype holds the plate's dtype (`result[i, :h, :w] = array` rounds
+   to the dtype of `result`).  This is the dtype-level reading of the allocation
+       pad_value * np.ones((len(arrays), *max_sizes), dtype=<E>)
+   for floating-point arrays, ordered by precision.  pad_value is a Python float: in np.result_type (and in the product
+   with the ones) it is a value-cast / weak scalar and never changes the dtype of a floating-point array.
+     <E> = np.result_type( *arrays, pad_value)   [first_only = false]  the repaired code: the join of ALL the dtypes
+     <E> = arrays[0].dtype                       [first_only = true]   the code before the repair
+   No arrays: np.max([]) raises before the allocation (tag 27, as np_max_axis0). *)
+Inductive fdtype := F16 | F32 | F64.
+Definition dt_rank (d : fdtype) : nat := match d with F16 => 0 | F32 => 1 | F64 => 2 end.
+Definition dt_le (a b : fdtype) : bool := Nat.leb (dt_rank a) (dt_rank b).     (* b holds every value of a exactly *)
+Definition dt_join (a b : fdtype) : fdtype := if dt_le a b then b else a.        (* np.result_type(a, b) *)
+Definition pad_dtype_of (first_only : bool) (ds : list fdtype) : result fdtype :=
+  match ds with
+  | [] => Err 27%Z
+  | d :: r => Ok (if first_only then d else fold_left dt_join r d)
+  end.
+Definition pad_dtype : list fdtype -> result fdtype := pad_dtype_of false.       (* the code *)
+(* plate number k of a call whose arrays have the dtypes ds is stored without rounding *)
+Definition stored_exactly (dense : fdtype) (ds : list fdtype) (k : nat) : bool :=
+  match nth_error ds k with Some d => dt_le d dense | None => true end.
+(* wire codes: 16 / 32 / 64 = the item size in bits *)
+Definition dt_of_code (z : Z) : option fdtype :=
+  if (z =? 16)%Z then Some F16 else if (z =? 32)%Z then Some F32 else if (z =? 64)%Z then Some F64 else None.
+Definition dt_code (d : fdtype) : Z := match d with F16 => 16 | F32 => 32 | F64 => 64 end%Z.
